@@ -58,8 +58,16 @@ def checks_for(m):
         return ['C17', 'C05', 'C07', 'C08']
     if f.startswith('pkg/codecparams'):
         return ['C16', 'C10']
+    if f == 'muxer_segmenter.go':
+        return ['C01', 'C02', 'C03', 'C19', 'C18', 'C09']
+    if f == 'muxer_stream.go':
+        return ['C03', 'C05', 'C04', 'C16', 'C18', 'C06', 'C07', 'C08']
+    if f == 'muxer.go':
+        return ['C01', 'C02', 'C16', 'C05', 'C06', 'C07', 'C08']
+    if f == 'muxer_server.go':
+        return ['C05', 'C06', 'C08']
     if f.startswith('muxer'):
-        return MUX_ALL
+        return ['C01', 'C03', 'C05', 'C18', 'C09']
     if f.startswith('client'):
         return CLI_ALL
     return MUX_ALL + CLI_ALL
